@@ -185,18 +185,21 @@ def rule_update_schedules(ck):
                    sink="grow-covers")
         ck.require(canon(fl.expand(b.get("a", ast.Constant(value=None)), n)) == "self.pilot_signals", "C04.R3", us, c,
                    ok="grows the pilot matrix itself", bad="_increase_width must be applied to self.pilot_signals", sink="grow-arg")
-    # fits test
-    for n, t in blocks:
-        fits = False
-        grown = any(cfg.dominates(g, n) for g, _ in grows)
-        for a, tr in facts_at(fl, n):
-            c = cmp_norm(fl.expand(a, n), tr)
+    # fits test: on every path to a block write the block either fits (`t + len <= width`) or the matrix was grown first
+    def fits_edge(e):
+        if e.kind != "edge" or e.test.kind != "test":
+            return False
+        for a_, tr in edge_facts(e.test.expr, e.label):
+            c = cmp_norm(fl.expand(a_, e.test), tr)
             if c and c[1] in ("<=",) and "self.pilot_signals.shape[1]" == canon(c[2]):
                 f_ = linear(c[0], norm=canon)
                 if length_atom and f_ == Lin({"self._iteration": 1, length_atom: 1}):
-                    fits = True
-        ck.require(fits or grown, "C04.R3", us, t, ok="written only when the block fits or after growing",
-                   bad="the block write is neither guarded by the fits test nor preceded by a grow", sink="block-fits-or-grown")
+                    return True
+        return False
+    safe = {e for e in cfg.nodes if fits_edge(e)} | {g for g, _ in grows}
+    for n, t in blocks:
+        ck.require(n not in cfg.reach(cfg.entry, avoid=safe), "C04.R3", us, t, ok="written only when the block fits or after growing",
+                   bad="a path reaches the block write although the block neither fits nor was the matrix grown", sink="block-fits-or-grown")
 
     # R7 infeasible => warn, not reject
     infeas = [n for n in cfg.nodes if n.kind == "edge" and n.test.kind == "test"
